@@ -30,6 +30,10 @@ func ResetGlobals() {
 // alternative: reverse sorted order, one deviation).
 var MapOrderChoice bool
 
+// MapOrderDesc makes instrumented map ranges run in descending key order (the sequential engine runs
+// multi-key plans in both orders: with two keys that is every order).
+var MapOrderDesc bool
+
 // RangeMap replaces ranging over a map with an ordered key type in instrumented code: under the
 // scheduler the order is deterministic (sorted keys), so executions are replayable.
 func RangeMap[M ~map[K]V, K cmp.Ordered, V any](m M) iter.Seq2[K, V] {
@@ -48,6 +52,9 @@ func RangeMap[M ~map[K]V, K cmp.Ordered, V any](m M) iter.Seq2[K, V] {
 			keys = append(keys, k)
 		}
 		slices.Sort(keys)
+		if MapOrderDesc {
+			slices.Reverse(keys)
+		}
 		if MapOrderChoice && len(keys) > 1 {
 			if Choose(2, "map-order", false) == 1 {
 				slices.Reverse(keys)
